@@ -273,13 +273,26 @@ endpats: Final = {
     '"""': r'(?:[^"\\]|\\.|"(?!""))*"""',
 }
 StartLBrace = r".*?(?=\{(?!\{)){"
-# literal part of an f-string up to (not including) a single "{" or the closing quote; "{{" is literal
-fstring_bodies: Final = {
-    "'": r"(?:[^'\\{]|\\.|\{\{)*",
-    '"': r'(?:[^"\\{]|\\.|\{\{)*',
-    "'''": r"(?:[^'\\{]|\\.|\{\{|'(?!''))*",
-    '"""': r'(?:[^"\\{]|\\.|\{\{|"(?!""))*',
-}
+
+
+def fstring_body(quote: str, raw: bool) -> str:
+    """Literal part of an f-string up to (not including) a single "{" or the closing quote; "{{" is literal.
+
+    A backslash does not hide a "{" (the field of f'\\{x}' starts at the brace); the braces of a
+    \\N{name} escape belong to the literal unless the string is raw.
+    """
+    q = quote[0]
+    alts = [rf"[^{q}\\{{]"]
+    if raw:
+        alts.append(r"\\[^{\n]")
+    else:
+        alts += [r"\\N\{[^{}]*\}", r"\\N(?!\{)", r"\\[^{\nN]"]
+    alts += [r"\\(?=\{)", r"\{\{"]
+    if len(quote) == 3:
+        alts.append(rf"{q}(?!{q}{q})")
+    return "(?:" + "|".join(alts) + ")*"
+
+
 EndRBrace = r".*?(?=\}(?!\}))}"
 
 tabsize = 8
@@ -499,7 +512,8 @@ def next_psuedo_matches(state: TokenizerState) -> TokenInfo | None:
         quote = match.group("Quote") or '"'
         if "f" in token.lower():
             token_type = Token.FSTRING_START
-            body = fstring_bodies[quote]  # the search for "{" must not run past the closing quote
+            # the search for "{" must not run past the closing quote
+            body = fstring_body(quote, raw="r" in token[: -len(quote)].lower())
             pattern = choice(LBrace=body + r"\{(?!\{)", End=body + quote)
             state.add_prog(end, end, pattern=pattern, quote=quote, mode=ModeMiddle(state.parenlev))
         else:
